@@ -40,6 +40,7 @@ def impl_cli_from_payloads(eb, slots, d):
             fh.write(p)
         inputs.append(f"{u},{f}")
     out = os.path.join(d, "cache.bin")
+    common.make_stale(out)
     try:
         mod.main(cache_create_subcommand="from_payloads", eb_size=eb, input=inputs, output_file=out)
         with open(out, "rb") as fh:
@@ -58,6 +59,7 @@ def impl_merge(eb, files, d):
             fh.write(b)
         paths.append(f)
     out = os.path.join(d, "merged.bin")
+    common.make_stale(out)
     try:
         mod.main(cache_create_subcommand="merge", eb_size=eb, input=paths, output_file=out)
         with open(out, "rb") as fh:
@@ -67,7 +69,12 @@ def impl_merge(eb, files, d):
 
 
 def payload(n, salt=0):
-    return bytes(((i * 31 + salt * 7 + 1) % 251 + 1) for i in range(n))
+    """deterministic content over the whole byte range; every third payload ends in a byte that means something in a cache file
+    (0xFF terminator, 0x00 padding, 0x60 empty key, 0x5A length head, 0xBF map start)"""
+    b = bytearray(((i * 31 + salt * 7 + 1) % 256) for i in range(n))
+    if n and (n + salt) % 3 == 0:
+        b[-1] = [0xFF, 0x00, 0xFF, 0x60, 0x5A, 0xBF][(n // 3 + salt) % 6]
+    return bytes(b)
 
 
 def gen_cases(tier, rng):
